@@ -422,3 +422,18 @@ Proof.
     + intros p Hp. apply HB; [|now apply HaP]. exact (HP _ (in_map (inst_pend (s_ctr st)) _ _ Hp)).
   - intros Hc. exists (frag_of d). now apply capture_pass1.
 Qed.
+
+(* the known finding: the placeholder of Token::default() is not reproduced *)
+Theorem default_token_placeholder_refuted :
+  exists capturing restoring, restored_placeholder capturing restoring <> fresh_placeholder restoring.
+Proof. exists (mkProc 0 1), (mkProc 0 2). vm_compute. discriminate. Qed.
+
+(* ... and it is reproduced exactly when both processes interned the same values first *)
+Theorem default_token_placeholder_iff capturing restoring :
+  restored_placeholder capturing restoring = fresh_placeholder restoring <->
+  first_str capturing = first_str restoring /\ first_path capturing = first_path restoring.
+Proof.
+  unfold restored_placeholder, fresh_placeholder. split.
+  - intros [= A B]. auto.
+  - intros [A B]. now rewrite A, B.
+Qed.
